@@ -300,4 +300,4 @@ def shard_random(ctx, shard, nshards, n):
 
 
 def run(ctx):
-    ctx.run_parallel('shard_random', extra=(ctx.pick(12, 600),))
+    ctx.run_parallel('shard_random', extra=(ctx.pick(12, 300),))
